@@ -115,7 +115,7 @@ def run_property(pid: str, tier: str, seed: int) -> int:
         cl["instances"] += 1
         cl["verdicts"][r["verdict"]] += 1
         solver_s += r["time"]
-        by_backend[r["solver"] or "none"] += 1
+        by_backend[re.sub(r" cfg\d+( slow)?", "", r["solver"] or "none")] += 1
         if not o.expect_sat and r["verdict"] != "unsat":
             cl["bad"].append({"line": o.line, "verdict": r["verdict"], "reason": r["reason"][:300], "model": r.get("model"), "text": o.text})
     proved, failed, dead_cover = [], [], []
@@ -295,16 +295,31 @@ def write_ledger(pids):
         ok, covers = set(), set()
         bad = set()
         hints = {}
+        slowest = {}
         for o, r in zip(obs, res):
             if o.expect_sat:
                 if r["verdict"] != "unsat":
                     covers.add(o.name)
                 continue
             (ok if r["verdict"] == "unsat" else bad).add(o.name)
+            if r["verdict"] != "unsat":
+                print(f"  not discharged: {o.name} path {o.path} line {o.line}: {r['verdict']} after {r['time']:.1f}s ({r['reason'][:160]})")
             if r["verdict"] == "unsat" and (r["solver"] or "").startswith("cvc5"):
                 hints[o.name] = "cvc5"
-            elif r["verdict"] == "unsat" and "(long attempt)" in (r["solver"] or "") and hints.get(o.name) != "cvc5":
-                hints[o.name] = "z3-long"
+            elif r["verdict"] == "unsat" and " cfg" in (r["solver"] or "") and hints.get(o.name) != "cvc5":
+                sv = r["solver"]
+                ci = int(sv.split(" cfg")[1].split()[0])
+                if (ci != 0 or sv.endswith("slow")) and (o.name not in hints or r["time"] > slowest.get(o.name, 0)):
+                    hints[o.name] = f"z3:cfg{ci}"
+                    slowest[o.name] = r["time"]
+        # classes that z3 only discharged slowly: if cvc5 does it faster, remember cvc5 instead
+        from vf.pyvc.solve import _external
+        for o, r in zip(obs, res):
+            if not o.expect_sat and r["verdict"] == "unsat" and r["time"] > 5.0 and hints.get(o.name, "").startswith("z3:"):
+                t1 = time.time()
+                ext = _external(o, only="cvc5")
+                if ext is not None and ext[0] == "unsat" and time.time() - t1 < 0.5 * r["time"]:
+                    hints[o.name] = "cvc5"
         ok -= bad
         json.dump({"classes": sorted(ok), "covers": sorted(covers), "functions": fns, "hints": hints}, open(os.path.join(HERE, "ledger", f"{pid}.json"), "w"), indent=1)
         print(f"{pid}: {len(ok)} classes in ledger, {len(bad)} not discharged: {sorted(bad)[:8]}")
